@@ -367,6 +367,61 @@ def run(chk: Check, eng: Engine) -> None:
                 f"{'can be empty' if E_ else 'offers messages'}: {what}",
                 "for such a history the forecaster offers a message that cannot come next (or withholds one that can)", keyparts="repetition-truth-table")
 
+    # ---- R19-h ---------------------------------------------------------------
+    # contradiction rule: a guard that leaves (continue / return / raise) unless a sequence is EMPTY, followed by an index into that sequence
+    chk.rule("R19-h", "the navigation code never indexes a sequence on a path where the guard just before established that it is empty", floor=1)
+
+    def known_empty_after(test: ast.AST) -> set[str]:
+        out: set[str] = set()
+        parts = test.values if isinstance(test, ast.BoolOp) and isinstance(test.op, ast.Or) else [test]
+        for p_ in parts:
+            if isinstance(p_, ast.Compare) and len(p_.ops) == 1 and isinstance(p_.left, ast.Call) and norm(p_.left.func) == "len" and p_.left.args \
+                    and isinstance(p_.comparators[0], ast.Constant) and p_.comparators[0].value == 0 and isinstance(p_.ops[0], (ast.NotEq, ast.Gt)):
+                out.add(norm(p_.left.args[0]))
+        return out
+
+    def empty_index_sites(fn_node: ast.AST) -> tuple[int, list[tuple[int, str, str]]]:
+        guards = 0
+        sites = []
+        for n in ast.walk(fn_node):
+            for blk in (getattr(n, "body", None), getattr(n, "orelse", None)):
+                if not isinstance(blk, list):
+                    continue
+                for i, st in enumerate(blk):
+                    if isinstance(st, ast.If) and st.body and isinstance(st.body[-1], (ast.Continue, ast.Return, ast.Raise, ast.Break)) and not st.orelse:
+                        emp = known_empty_after(st.test)
+                        # count every early-exit guard over a length as an instance of the rule
+                        if any(isinstance(x, ast.Call) and norm(x.func) == "len" for x in ast.walk(st.test)):
+                            guards += 1
+                        if not emp:
+                            continue
+                        for later in blk[i + 1:]:
+                            rebound = False
+                            for x in ast.walk(later):
+                                if isinstance(x, ast.Subscript) and norm(x.value) in emp and isinstance(x.ctx, ast.Load):
+                                    sites.append((x.lineno, norm(st.test), norm(x)))
+                                if isinstance(x, (ast.Assign, ast.AugAssign)) and any(norm(t_) in emp for t_ in (x.targets if isinstance(x, ast.Assign) else [x.target])):
+                                    rebound = True
+                            if rebound:
+                                break
+        return guards, sites
+
+    # the rule must be able to fire: a ten-line positive example, evaluated on every run
+    _pos = ast.parse("def f(frames):\n    for fr in frames[::-1]:\n        if fr is None or len(fr) != 0:\n            continue\n        return fr[-1]\n")
+    if not empty_index_sites(_pos)[1]:
+        raise AnalysisError("R19-h: the embedded positive example no longer fires")
+    n_guards = 0
+    for f in eng.ix.all_functions:
+        if not f.module.startswith(NAV):
+            continue
+        g_, sites = empty_index_sites(f.node)
+        n_guards += g_
+        for ln, test_txt, sub in sites:
+            chk.bad("R19-h", eng.relfile(f), ln, f.fq, f"`{sub}` is evaluated only when `{test_txt}` was false - that is, when the sequence is empty",
+                    "the walk raises (IndexError / a failed assertion) for every history that reaches this point: no forecast at all for protocols with a computed repetition",
+                    keyparts=f"index-into-empty|{sub}")
+    chk.ok("R19-h", NAV + ".*", 0, f"{n_guards} early-exit guard(s) over sequence lengths examined; none is followed by an index into a sequence it proved empty")
+
     # ---- R19-e ---------------------------------------------------------------
     pf = eng.cls(f"{NAV}.packetforecaster", "PathFinder")
     on = eng.method(pf, "onNonTerminalNodeVisit", inherited=False)
@@ -443,6 +498,7 @@ MUTANTS = [
     M("explore-stops-at-first-continuing-alternative", _CNV, "            for alt in node.alternatives:\n                continue_exploring |= self.visit(alt)\n",
       "            for alt in node.alternatives:\n                continue_exploring = continue_exploring or self.visit(alt)\n", "R19-c"),
     M("unfinished-round-does-not-end-the-walk", _CNV, "            if not continue_exploring:\n                # The last round present in the history is unfinished: what follows\n                # the repetition cannot come before that round is complete.\n                return False\n", "", "R19-g"),
+    M("prefix-frame-test-inverted", _CNV, "                if tree_list is None or len(tree_list) == 0:\n                    continue\n", "                if tree_list is None or len(tree_list) != 0:\n                    continue\n", "R19-h"),
     M("one-round-too-many", _CNV, "        if continue_exploring and tree_len < rep_max:\n", "        if continue_exploring and tree_len <= rep_max:\n", "R19-d"),
     M("leave-before-minimum", _CNV, "        if tree_len >= rep_min:\n            return True\n", "        if tree_len + 1 >= rep_min:\n            return True\n", "R19-d"),
     M("bounds-swapped", _CNV, "        rep_min = node.min\n        rep_max = node.max\n", "        rep_min = node.max\n        rep_max = node.min\n", "R19-d"),
